@@ -8,20 +8,23 @@ from harness import core, tlaval
 
 LEVEL = "model_checking"
 ASSUME = ["functions are drawn from the finite menu of spec/Cartesian.tla (arities 0..3 -> 0..3), defined "
-          "identically in the adapter below; inputs range over {-1, 0, 2, 7}",
+          "identically in the adapter below; inputs range over {-1, 0, 2, 7} and the opaque value None (code -1000: "
+          "copied, swapped, discarded and tested like any value; arithmetic on it must raise TypeError)",
           "bounded: all cartesian diagrams within the model constants (sampled for replay in the quick tier)"]
 CONST = {"quick": {"MaxBoxes": 3, "MaxWidth": 3, "replay": 2500, "tuples": 6, "N": 4},
          "thorough": {"MaxBoxes": 4, "MaxWidth": 3, "replay": 60000, "tuples": 8, "N": 5}}
 INPUTS = (-1, 0, 2, 7)
+NONE = -1000          # code of the opaque value (Python None) in the spec and in recorded tuples
 W = [1, 0]
 
 ARITY = {1: (0, 1), 2: (1, 1), 3: (2, 1), 4: (1, 2), 5: (1, 2), 6: (2, 2), 7: (1, 0), 8: (2, 1),
-         9: (3, 3), 10: (0, 0), 11: (0, 2), 12: (2, 3)}
+         9: (3, 3), 10: (0, 0), 11: (0, 2), 12: (2, 3), 13: (0, 1), 14: (1, 1), 15: (1, 2)}
 FUN = {
     1: lambda: 7, 2: lambda x: -x, 3: lambda x, y: x + y, 4: lambda x: (x, x + 1),
     5: lambda *x: x + x, 6: lambda x, y: (y, x), 7: lambda *x: (), 8: lambda x, y: x - y,
     9: lambda a, b, c: tuple(sorted((a, b, c))), 10: lambda: (), 11: lambda: (1, 2),
     12: lambda x, y: (x, y, 2 * x + y),
+    13: lambda: None, 14: lambda x: 1 if x is None else 0, 15: lambda x: (x, None),
 }
 BUILTIN = {"copy": 5, "swap": 6, "discard": 7}
 
@@ -56,7 +59,7 @@ def build(dabs, B, how):
 def call(d, xs):
     from discopy.cartesian import tuplify
     try:
-        return "", [int(v) for v in tuplify(d(*xs))]
+        return "", [NONE if v is None else int(v) for v in tuplify(d(*[None if x == NONE else x for x in xs]))]
     except Exception as e:
         return type(e).__name__, []
 
@@ -76,18 +79,18 @@ def observations(states, c, rnd):
     for k, dabs in enumerate(states):
         real = build(dabs, B, k % 2)
         n = len(dabs["dom"])
-        tuples = list(itertools.product(INPUTS, repeat=n))
+        tuples = list(itertools.product(INPUTS + (NONE,), repeat=n))
         for xs in (tuples if len(tuples) <= c["tuples"] else rnd.sample(tuples, c["tuples"])):
             exc, res = call(real, xs)
             rows.append(row("call", xs, exc, res, d=dabs))
     N = c["N"]
     for l in range(N + 1):
         for r in range(N + 1 - l):
-            for xs in rnd.sample(list(itertools.product(INPUTS, repeat=l + r)), min(6, 4 ** (l + r))):
+            for xs in rnd.sample(list(itertools.product(INPUTS + (NONE,), repeat=l + r)), min(6, 5 ** (l + r))):
                 exc, res = call(cartesian.Swap(l, r), xs)
                 rows.append(row("swap", xs, exc, res, l=l))
     for n in range(N + 1):
-        for xs in rnd.sample(list(itertools.product(INPUTS, repeat=n)), min(8, 4 ** n)):
+        for xs in rnd.sample(list(itertools.product(INPUTS + (NONE,), repeat=n)), min(8, 5 ** n)):
             exc, res = call(cartesian.Copy(n), xs)
             rows.append(row("copy", xs, exc, res))
             exc, res = call(cartesian.Discard(n), xs)
@@ -99,13 +102,13 @@ def observations(states, c, rnd):
             ng, mg = ARITY[g]
             lhs = B[f] @ B[g] >> cartesian.Swap(mf, mg)
             rhs = cartesian.Swap(nf, ng) >> B[g] @ B[f]
-            for xs in rnd.sample(list(itertools.product(INPUTS, repeat=nf + ng)), min(3, 4 ** (nf + ng))):
+            for xs in rnd.sample(list(itertools.product(INPUTS + (NONE,), repeat=nf + ng)), min(3, 5 ** (nf + ng))):
                 e1, r1 = call(lhs, xs)
                 e2, r2 = call(rhs, xs)
                 rows.append(row("square", xs, e1 or e2, r1, d=proj(lhs), d2=proj(rhs), res2=r2))
         for lhs, rhs in ((B[f] >> cartesian.Copy(mf), cartesian.Copy(nf) >> B[f] @ B[f]),
                          (B[f] >> cartesian.Discard(mf), cartesian.Discard(nf))):
-            for xs in rnd.sample(list(itertools.product(INPUTS, repeat=nf)), min(4, 4 ** nf)):
+            for xs in rnd.sample(list(itertools.product(INPUTS + (NONE,), repeat=nf)), min(4, 5 ** nf)):
                 e1, r1 = call(lhs, xs)
                 e2, r2 = call(rhs, xs)
                 rows.append(row("square", xs, e1 or e2, r1, d=proj(lhs), d2=proj(rhs), res2=r2))
